@@ -343,6 +343,40 @@ func c20run(c *Ctx) {
 			}
 		}
 	}
+	// ---- (b0) parser: the ends of the range written with a fraction in every decimal unit, and long digit strings
+	if c.Shard == 0 {
+		var extra []string
+		for _, mag := range []string{"9223372036854775807", "9223372036854775808", "9223372036854775809", "9223372036854775800"} {
+			for _, u := range []struct {
+				unit string
+				k    int
+			}{{"ns", 0}, {"us", 3}, {"\u00b5s", 3}, {"ms", 6}, {"s", 9}} {
+				t := mag
+				if u.k > 0 {
+					t = mag[:len(mag)-u.k] + "." + mag[len(mag)-u.k:]
+				}
+				for _, sign := range []string{"", "-", "+"} {
+					extra = append(extra, sign+t+u.unit, sign+"0"+t+u.unit, sign+t+"0"+u.unit)
+				}
+			}
+		}
+		for _, z := range []int{1, 18, 19, 20, 21, 300} {
+			zs := strings.Repeat("0", z)
+			extra = append(extra, zs+"1s", zs+"9223372036854775807ns", "-"+zs+"9223372036854775808ns", zs+"5m", "1."+zs+"1h", zs+"."+zs+"5s", "1.5h30m", "-0.25h10m", "1.000001s5ms")
+		}
+		for _, s := range extra {
+			c.Count("evaluations", 1)
+			c.Count("parser_extreme_strings", 1)
+			v, op := c20evalParse(s)
+			if op != "" {
+				c.Note("oracle self-check failed (not a violation): " + op)
+				c.Flag("exhaustive", false)
+			}
+			if v != nil {
+				c.Violate(v)
+			}
+		}
+	}
 	// ---- (b) parser: every string of up to maxLen symbols
 	A := len(c20alphabet)
 	idx := make([]int, maxLen)
